@@ -37,19 +37,28 @@ pub fn run(ctx: &Ctx, rep: &mut Report) {
             use crate::oracle::tb4::{cache_path, Table4, CLASSES};
             let _ = std::fs::create_dir_all("/verif/cache");
             let tb3 = crate::oracle::tb::Tablebases::build(&[Kind::Q, Kind::R, Kind::B, Kind::N]);
-            for (w, b) in CLASSES {
-                if !ctx.mode.is_empty() && ctx.mode != format!("{},{}", w.letter(), b.letter()) {
+            for (w, b, same, known) in CLASSES {
+                if !ctx.mode.is_empty() && ctx.mode != format!("{},{}{}", w.letter(), b.letter(), if same { ",same" } else { "" }) {
                     continue;
                 }
-                if std::path::Path::new(&cache_path(w, b)).exists() && ctx.tier != "thorough" {
-                    println!("tb4 K{}vK{} cached", w.letter(), b.letter());
+                if std::path::Path::new(&cache_path(w, b, same)).exists() && ctx.tier != "thorough" {
+                    println!("tb4 {} cached", cache_path(w, b, same));
                     continue;
                 }
                 let t = std::time::Instant::now();
-                let tb = Table4::build(w, b, &tb3, 16);
+                let tb = Table4::build(w, b, same, &tb3, 16);
                 let mx = tb.max_win();
-                tb.save(&cache_path(w, b)).expect("save tb4");
-                println!("tb4 K{}vK{} built in {:?}, longest win {} plies", w.letter(), b.letter(), t.elapsed(), mx);
+                tb.save(&cache_path(w, b, same)).expect("save tb4");
+                println!("tb4 {} built in {:?}, longest win {} plies (published {})", tb.name(), t.elapsed(), mx, known);
+            }
+        }
+        "tb4-info" => {
+            use crate::oracle::tb4::{cache_path, Table4, CLASSES};
+            for (w, b, same, known) in CLASSES {
+                match Table4::load(&cache_path(w, b, same)) {
+                    Ok(t) => println!("tb4 {} longest win {} plies (published {})", t.name(), t.max_win(), known),
+                    Err(e) => println!("tb4 {} not loaded: {}", cache_path(w, b, same), e),
+                }
             }
         }
         "tb-time" => {
